@@ -12,8 +12,8 @@ RULE = ("histories as data: lists of up to 40 operations over a Path (item/slice
         "slice, pop, remove, reverse, assigning start/end) interleaved with queries (length, length(T0,T1), length(error, "
         "min_depth), point, T2t, t2T, start, end, bbox, d (all options), ==, hash, iscontinuous, len); after every step a battery of "
         "queries on the mutated path must equal the same queries on Path(*current segments); the segment list must equal a Python "
-        "list model. Exhaustive: all histories of depth <= 3 (quick) / 4 (thorough) over a 24-operation alphabet on a pool of 4 "
-        "segments. Segment histories: reassign control points / length with other tolerances / reversed. Equality-hash pairs built "
+        "list model. Exhaustive: over a 24-operation alphabet on a pool of 4 segments, quick = all histories of depth <= 2 and every third of "
+        "depth 3, thorough = all of depth <= 3 and every sixth of depth 4. Segment histories: reassign control points / length with other tolerances / reversed. Equality-hash pairs built "
         "through different routes. Both configurations. Non-trivial = history with a query, then a mutation, then a query; distinct "
         "by history hash.")
 ASSUMPTIONS = ["mutating a member segment directly is not 'through the Path's own interface' and is only done in the segment histories",
@@ -23,7 +23,7 @@ ASSUMPTIONS = ["mutating a member segment directly is not 'through the Path's ow
 FUZZ = {'thorough': (16, 12000)}
 CONFIGS = ['scipy', 'noscipy']
 BUDGET = {'quick': {'scipy': 700, 'noscipy': 300}, 'thorough': {'scipy': 20000, 'noscipy': 6000}}
-EXHAUSTIVE_NOTE = "all operation sequences of depth <= 3 (quick) / 4 (thorough) over a 24-operation alphabet, per configuration"
+EXHAUSTIVE_NOTE = "24-operation alphabet, per configuration: quick = all sequences of depth <= 2 + a deterministic third of depth 3; thorough = all of depth <= 3 + a sixth of depth 4"
 REQUIRED = ['op:set', 'op:setslice', 'op:insert', 'op:append', 'op:extend', 'op:iadd', 'op:del', 'op:delslice', 'op:pop', 'op:remove',
             'op:reverse', 'op:set_start', 'op:set_end', 'q:length_tol', 'seg_history', 'eqhash_pairs', 'exhaustive_history']
 CASE_TIMEOUT = 120
